@@ -978,7 +978,7 @@ def get_doc_words(pagexml_doc: pdm.PageXMLTextRegion, use_re_word_boundaries: bo
     if use_re_word_boundaries:
         return [w.replace(' ', '') for line in lines for w in re.split(r'\b', line.text) if w != ' ' and w != '']
     else:
-        return [w for line in lines for w in line.text.split(' ')]
+        return [w for line in lines for w in line.text.split(' ') if w != '']
 
 
 def get_word_cat_stats(words, stop_words=None, max_word_length: int = 30,
